@@ -383,6 +383,17 @@ def _run_cbmc_z3som(u, gb, bdir):
         open(smt, "w").write(txt)
         cmd2 = ["z3-new", "-T:%d" % int(u.timeout or 120), smt]
         u.cmds.append(" ".join(cmd2))
+        # the installed z3 4.8.12 is tried first for 30 s with the same tactic: its solve-eqs eliminates chained definitions that end up
+        # inside uninterpreted-function arguments, which z3 5.1's does not; only 'unsat' is taken from it
+        rcx, sox, sex, dtx = sh(["z3", "-T:30", smt], timeout=40, mem_gb=u.mem_gb or 12)
+        if sox.strip().split("\n")[0:1] == ["unsat"]:
+            rec.update(status="SUCCESS", backend="z3 4.8.12 som")
+            results.append(rec)
+            try:
+                os.remove(smt)
+            except OSError:
+                pass
+            continue
         rc, so2, se2, dt2 = sh(cmd2, timeout=(u.timeout or 120) + 10, mem_gb=u.mem_gb or 12)
         first = so2.strip().split("\n")[0] if so2.strip() else ""
         if first == "unsat":
@@ -635,7 +646,7 @@ def native_replay(u, inputs, outdir, tag):
     args = ["%s=%s" % (k, v.get("binary") or v.get("data")) for k, v in sorted(inputs.items())]
     rc, so, se, dt = sh([exe] + args, timeout=120)
     out = (so + se)[-4000:]
-    if rc == 0 and u.mode in ("ABS", "RING") and inputs:
+    if rc in (0, 3) and u.mode in ("ABS", "RING") and inputs:   # 3 = the model's bit patterns fall outside the native harness assumptions
         # the model's values for the uninterpreted operations are not the real ones: search concrete inputs natively
         # (same harness, same oracle) so that the report can carry an input that fails on the real code
         found = _replay_search(exe, inputs)
